@@ -164,11 +164,11 @@ Qed.
 
 (* ---- time.Duration.Seconds: d / 1e9 up to 2^-53 relative and 2^-52 absolute ---- *)
 
-Lemma quot_rem_e9 d : (Z.abs d < 2^62)%Z ->
-  (Z.abs (Z.quot d 1000000000) <= 4611686018 /\ Z.abs (Z.rem d 1000000000) < 1000000000 /\
+Lemma quot_rem_e9 d : (Z.abs d <= 2^63)%Z ->
+  (Z.abs (Z.quot d 1000000000) <= 9223372036 /\ Z.abs (Z.rem d 1000000000) < 1000000000 /\
    d = 1000000000 * Z.quot d 1000000000 + Z.rem d 1000000000)%Z.
 Proof.
-  intros H. change (2^62)%Z with 4611686018427387904%Z in H.
+  intros H. change (2^63)%Z with 9223372036854775808%Z in H.
   pose proof (Z.quot_rem' d 1000000000) as E. pose proof (Z.rem_bound_abs d 1000000000) as Hr.
   split; [|split; [lia|exact E]].
   destruct (Z_le_gt_dec 0 d).
@@ -178,7 +178,7 @@ Proof.
     pose proof (Z.quot_rem' (-d) 1000000000). lia.
 Qed.
 
-Lemma dur_seconds_close d : (Z.abs d < 2^62)%Z ->
+Lemma dur_seconds_close d : (Z.abs d <= 2^63)%Z ->
   fin (dur_seconds d) = true /\
   Rabs (R (dur_seconds d) - IZR d / 1000000000) <= u * Rabs (IZR d / 1000000000) + 2 * u.
 Proof.
@@ -187,7 +187,7 @@ Proof.
   destruct (f_of_int_spec q) as [Fq Rq]; [change (2^53)%Z with 9007199254740992%Z; lia|].
   destruct (f_of_int_spec r) as [Fr Rr]; [change (2^53)%Z with 9007199254740992%Z; lia|].
   destruct (f_of_int_spec 1000000000) as [F9 R9]; [change (2^53)%Z with 9007199254740992%Z; lia|].
-  assert (Bq : Rabs (IZR q) <= 4611686018) by (rewrite <- abs_IZR; apply IZR_le; exact Hq).
+  assert (Bq : Rabs (IZR q) <= 9223372036) by (rewrite <- abs_IZR; apply IZR_le; exact Hq).
   assert (Br : Rabs (IZR r) <= 1000000000) by (rewrite <- abs_IZR; apply IZR_le; lia).
   assert (Ed : IZR d = 1000000000 * IZR q + IZR r) by (rewrite E, plus_IZR, mult_IZR; reflexivity).
   set (rho := IZR r / 1000000000).
@@ -215,14 +215,15 @@ Qed.
 Definition mid_ns_f (lo hi : Z) : f64 :=
   fmul (fdiv (fadd (dur_seconds lo) (dur_seconds hi)) c2) (f_of_int 1000000000).
 
-Lemma mid_ns_close lo hi : (Z.abs lo < 2^62)%Z -> (Z.abs hi < 2^62)%Z ->
+Lemma mid_ns_close lo hi : (Z.abs lo <= 2^63)%Z -> (Z.abs hi <= 2^63)%Z ->
   fin (mid_ns_f lo hi) = true /\
   Rabs (R (mid_ns_f lo hi) - IZR (lo + hi) / 2) <= 3 * u * IZR (Z.abs lo + Z.abs hi) + / 1000000.
 Proof.
   intros Hlo Hhi.
   destruct (dur_seconds_close lo Hlo) as [Fl El]. destruct (dur_seconds_close hi Hhi) as [Fh Eh].
-  assert (Bl : Rabs (IZR lo) <= 4611686018427387904) by (rewrite <- abs_IZR; apply IZR_le; lia).
-  assert (Bh : Rabs (IZR hi) <= 4611686018427387904) by (rewrite <- abs_IZR; apply IZR_le; lia).
+  change (2^63)%Z with 9223372036854775808%Z in Hlo, Hhi.
+  assert (Bl : Rabs (IZR lo) <= 9223372036854775808) by (rewrite <- abs_IZR; apply IZR_le; lia).
+  assert (Bh : Rabs (IZR hi) <= 9223372036854775808) by (rewrite <- abs_IZR; apply IZR_le; lia).
   rewrite !plus_IZR, !abs_IZR.
   set (L := IZR lo / 1000000000) in *. set (H := IZR hi / 1000000000) in *.
   assert (EL : IZR lo = L * 1000000000) by (unfold L; field).
@@ -232,17 +233,17 @@ Proof.
   destruct (f_of_int_spec 2) as [F2 R2]; [change (2^53)%Z with 9007199254740992%Z; lia|].
   destruct (f_of_int_spec 1000000000) as [F9 R9]; [change (2^53)%Z with 9007199254740992%Z; lia|].
   (* magnitudes *)
-  assert (BL : Rabs L <= 4611686019) by (revert Bl; clear; split_Rabs; lra).
-  assert (BH : Rabs H <= 4611686019) by (revert Bh; clear; split_Rabs; lra).
-  assert (Blf : Rabs lf <= 4611686020) by (unfold u in El; revert El BL; clear; split_Rabs; lra).
-  assert (Bhf : Rabs hf <= 4611686020) by (unfold u in Eh; revert Eh BH; clear; split_Rabs; lra).
+  assert (BL : Rabs L <= 9223372037) by (revert Bl; clear; split_Rabs; lra).
+  assert (BH : Rabs H <= 9223372037) by (revert Bh; clear; split_Rabs; lra).
+  assert (Blf : Rabs lf <= 9223372039) by (unfold u in El; revert El BL; clear; split_Rabs; lra).
+  assert (Bhf : Rabs hf <= 9223372039) by (unfold u in Eh; revert Eh BH; clear; split_Rabs; lra).
   (* the sum *)
-  destruct (fadd_spec (dur_seconds lo) (dur_seconds hi) 34) as [Fs Rs].
+  destruct (fadd_spec (dur_seconds lo) (dur_seconds hi) 35) as [Fs Rs].
   { exact Fl. } { exact Fh. } { lia. }
-  { fold lf hf. change (bpow radix2 34) with 17179869184. revert Blf Bhf. clear. split_Rabs; lra. }
+  { fold lf hf. change (bpow radix2 35) with 34359738368. revert Blf Bhf. clear. split_Rabs; lra. }
   fold lf hf in Rs. pose proof (rnd_err (lf + hf)) as Es. rewrite <- Rs in Es.
   set (sf := R (fadd (dur_seconds lo) (dur_seconds hi))) in *.
-  assert (Bsf : Rabs sf <= 9223372050) by (unfold u, eta in Es; revert Es Blf Bhf; clear; split_Rabs; lra).
+  assert (Bsf : Rabs sf <= 18446744090) by (unfold u, eta in Es; revert Es Blf Bhf; clear; split_Rabs; lra).
   (* the half *)
   destruct (fdiv_spec (fadd (dur_seconds lo) (dur_seconds hi)) c2 34) as [Fm Rm].
   { exact Fs. } { unfold c2. rewrite R2. lra. } { lia. }
@@ -250,11 +251,11 @@ Proof.
   unfold c2 in Rm. rewrite R2 in Rm. fold c2 in Rm. fold sf in Rm.
   pose proof (rnd_err (sf / 2)) as Em. rewrite <- Rm in Em.
   set (mf := R (fdiv (fadd (dur_seconds lo) (dur_seconds hi)) c2)) in *.
-  assert (Bmf : Rabs mf <= 4611686030) by (unfold u, eta in Em; revert Em Bsf; clear; split_Rabs; lra).
+  assert (Bmf : Rabs mf <= 9223372050) by (unfold u, eta in Em; revert Em Bsf; clear; split_Rabs; lra).
   (* back to nanoseconds *)
-  destruct (fmul_spec (fdiv (fadd (dur_seconds lo) (dur_seconds hi)) c2) (f_of_int 1000000000) 63) as [Fp Rp].
+  destruct (fmul_spec (fdiv (fadd (dur_seconds lo) (dur_seconds hi)) c2) (f_of_int 1000000000) 64) as [Fp Rp].
   { exact Fm. } { exact F9. } { lia. }
-  { fold mf. rewrite R9. change (bpow radix2 63) with 9223372036854775808. revert Bmf. clear. split_Rabs; lra. }
+  { fold mf. rewrite R9. change (bpow radix2 64) with 18446744073709551616. revert Bmf. clear. split_Rabs; lra. }
   fold mf in Rp. rewrite R9 in Rp. pose proof (rnd_err (mf * 1000000000)) as Ep. rewrite <- Rp in Ep.
   unfold mid_ns_f. split; [exact Fp|].
   set (pf := R (fmul (fdiv (fadd (dur_seconds lo) (dur_seconds hi)) c2) (f_of_int 1000000000))) in *.
@@ -288,7 +289,7 @@ Proof.
   unfold u, eta in *. lra.
 Qed.
 
-(* ---- the integer side: ntp.ClockOffset without saturation or wrap ---- *)
+(* ---- the integer side ---- *)
 
 Lemma sat64_small x : (Z.abs (sat64 x) < 2^62)%Z -> sat64 x = x.
 Proof.
@@ -297,11 +298,22 @@ Proof.
   destruct (Z.ltb_spec 9223372036854775807 x); lia.
 Qed.
 
-(* below 2^62 the exact offset is -(lo + hi) / 2 truncated towards zero: within 1/2 of -(lo + hi) / 2 *)
-Lemma raw_offset_exact s : (Z.abs (lo_ns s) < 2^62)%Z -> (Z.abs (hi_ns s) < 2^62)%Z ->
-  raw_offset s = Z.quot (- (lo_ns s + hi_ns s)) 2.
+(* Time.Sub saturates: the one-way differences are always int64 values *)
+Lemma sat64_range x : (min_i64 <= sat64 x <= max_i64)%Z.
 Proof.
-  intros Hl Hh. unfold raw_offset, clock_offset, lo_ns, hi_ns, time_sub in *.
+  unfold sat64, min_i64, max_i64.
+  destruct (Z.ltb_spec x (-9223372036854775808)); [lia|].
+  destruct (Z.ltb_spec 9223372036854775807 x); lia.
+Qed.
+
+Lemma lo_hi_range s : (min_i64 <= lo_ns s <= max_i64 /\ min_i64 <= hi_ns s <= max_i64)%Z.
+Proof. unfold lo_ns, hi_ns, time_sub. split; apply sat64_range. Qed.
+
+(* below 2^62 ntp.ClockOffset neither saturates nor wraps: it is the offset over the integers *)
+Lemma raw_offset_exact s : (Z.abs (lo_ns s) < 2^62)%Z -> (Z.abs (hi_ns s) < 2^62)%Z ->
+  raw_offset s = wide_offset s.
+Proof.
+  intros Hl Hh. unfold wide_offset, raw_offset, clock_offset, lo_ns, hi_ns, time_sub in *.
   pose proof (sat64_small _ Hl) as El. pose proof (sat64_small _ Hh) as Eh. rewrite El, Eh in *.
   change (2^62)%Z with 4611686018427387904%Z in *.
   assert (E1 : sat64 (sm_srx s - sm_ctx s) = (- (sm_ctx s - sm_srx s))%Z).
@@ -327,44 +339,73 @@ Proof.
   rewrite Er. revert Br. clear. split_Rabs; lra.
 Qed.
 
+(* int64(float64) on every finite value: truncation, or -2^63 out of range *)
+Lemma f_to_i64_cases x : fin x = true ->
+  f_to_i64 x = if in_i64b (Ztrunc (R x)) then Ztrunc (R x) else min_i64.
+Proof.
+  intros Fx. unfold f_to_i64, fis_finite. rewrite Fx.
+  assert (E : Btrunc x = Ztrunc (R x)).
+  { apply eq_IZR. rewrite (Btrunc_correct prec emax Hmax). apply round_FIX_IZR. }
+  rewrite E. reflexivity.
+Qed.
+
 (* ---- the closeness clause ---- *)
 
 Lemma raw_f_unfold s : raw_f s = inv (f_to_i64 (mid_ns_f (lo_ns s) (hi_ns s))).
 Proof. reflexivity. Qed.
 
-(* the difference in ns, as a real bound: one for the truncation, a half for the exact offset's own
-   truncation, 10^-6 for the conversions to seconds, 3 * 2^-53 relative for the four roundings *)
-Lemma raw_f_close_R s : (Z.abs (lo_ns s) < 2^62)%Z -> (Z.abs (hi_ns s) < 2^62)%Z ->
-  Rabs (IZR (raw_f s - raw_offset s)) < 3 / 2 + / 1000000 + 3 * u * IZR (Z.abs (lo_ns s) + Z.abs (hi_ns s)).
+(* On EVERY sample (the one-way differences are int64 values, saturated by Time.Sub): the output is
+   within 3/2 + 10^-6 + 3 * 2^-53 * (|lo| + |hi|) ns of the offset over the integers, -(lo + hi) / 2
+   truncated towards zero: one for the truncation, a half for the exact offset's own truncation, 10^-6
+   for the conversions to seconds, 3 * 2^-53 relative for the four roundings.  This includes the
+   saturation of Inv at an offset of +2^63.  The one exception: when lo + hi >= 2^64 - 2^14 the
+   product mid * 1e9 can reach 2^63, int64() of which is -2^63, and Inv turns that into MaxInt64. *)
+Lemma raw_f_wide_R s :
+  Rabs (IZR (raw_f s - wide_offset s)) < 3 / 2 + / 1000000 + 3 * u * IZR (Z.abs (lo_ns s) + Z.abs (hi_ns s))
+  \/ (raw_f s = max_i64 /\ (2^64 - 2^14 <= lo_ns s + hi_ns s)%Z).
 Proof.
-  intros Hl Hh. rewrite raw_f_unfold, (raw_offset_exact s Hl Hh).
-  set (lo := lo_ns s) in *. set (hi := hi_ns s) in *.
+  rewrite raw_f_unfold. unfold wide_offset. destruct (lo_hi_range s) as [Rl Rh].
+  set (lo := lo_ns s) in *. set (hi := hi_ns s) in *. unfold min_i64, max_i64 in Rl, Rh.
+  assert (Hl : (Z.abs lo <= 2^63)%Z) by (change (2^63)%Z with 9223372036854775808%Z; lia).
+  assert (Hh : (Z.abs hi <= 2^63)%Z) by (change (2^63)%Z with 9223372036854775808%Z; lia).
   destruct (mid_ns_close lo hi Hl Hh) as [Fp Ep]. set (p := mid_ns_f lo hi) in *.
-  change (2^62)%Z with 4611686018427387904%Z in *.
+  change (2^64 - 2^14)%Z with 18446744073709535232%Z.
   set (S := (Z.abs lo + Z.abs hi)%Z) in *.
-  assert (BS2 : IZR S <= 9223372036854775808) by (apply IZR_le; lia).
-  assert (Bt : Rabs (IZR (lo + hi) / 2) <= 4611686018427387904).
-  { assert (Rabs (IZR (lo + hi)) <= 9223372036854775808) by (rewrite <- abs_IZR; apply IZR_le; lia).
-    revert H. clear. split_Rabs; lra. }
-  destruct (Ztrunc_err (R p)) as [K1 K2]. set (k := Ztrunc (R p)) in *.
-  assert (Bk : Rabs (IZR k) < 9223372036854775807).
-  { unfold u in Ep. revert K2 Ep Bt BS2. clear. split_Rabs; lra. }
-  assert (Hk : (min_i64 < k <= max_i64)%Z).
-  { unfold min_i64, max_i64. apply Rabs_lt_inv in Bk. destruct Bk as [Bk1 Bk2].
-    split; [apply lt_IZR; lra|apply le_IZR; lra]. }
-  rewrite (f_to_i64_spec p Fp) by (fold k; lia). fold k.
-  unfold inv. destruct (Z.eqb_spec k min_i64) as [Ek|_]; [lia|].
+  assert (BS2 : IZR S <= 18446744073709551616) by (apply IZR_le; lia).
+  assert (BS0 : 0 <= IZR S) by (apply IZR_le; lia).
   pose proof (quot2_half (- (lo + hi))) as Q. set (m := Z.quot (- (lo + hi)) 2) in *.
   rewrite opp_IZR in Q.
-  rewrite minus_IZR, opp_IZR. unfold u in *. revert K1 Ep Q. clear. split_Rabs; lra.
+  assert (Bm : (- 9223372036854775807 <= m <= 9223372036854775808)%Z).
+  { subst m. pose proof (Z.quot_rem' (- (lo + hi)) 2). pose proof (Z.rem_bound_abs (- (lo + hi)) 2). lia. }
+  destruct (Ztrunc_err (R p)) as [K1 K2]. set (k := Ztrunc (R p)) in *.
+  rewrite (f_to_i64_cases p Fp). fold k. unfold in_i64b, min_i64, max_i64.
+  destruct (Z.leb_spec (-9223372036854775808) k) as [Lk|Lk]; cbn [andb].
+  - destruct (Z.leb_spec k 9223372036854775807) as [Uk|Uk].
+    + unfold inv, min_i64, max_i64. destruct (Z.eqb_spec k (-9223372036854775808)) as [Ek|Nk].
+      * (* the product is -2^63 exactly: Inv saturates, the offset is 2^63 within the bound *)
+        left. rewrite minus_IZR. assert (Ik : IZR k = -9223372036854775808) by (rewrite Ek; reflexivity).
+        assert (Im : IZR m <= 9223372036854775808) by (apply IZR_le; lia).
+        rewrite Ik in K1. unfold u in *. revert K1 Ep Q Im BS0. clear. split_Rabs; lra.
+      * left. rewrite minus_IZR, opp_IZR. unfold u in *. revert K1 Ep Q BS0. clear. split_Rabs; lra.
+    + (* beyond 2^63 - 1: the indefinite value, then Inv of it *)
+      right. split; [reflexivity|].
+      assert (Ik : 9223372036854775808 <= IZR k) by (apply IZR_le; lia).
+      assert (Hs : 18446744073709535232 <= IZR (lo + hi)).
+      { unfold u in Ep. revert K1 Ep Ik BS2. clear. split_Rabs; lra. }
+      apply le_IZR. exact Hs.
+  - (* below -2^63: the indefinite value again; Inv gives MaxInt64, and the offset is 2^63 within the bound *)
+    left. replace (inv (-9223372036854775808)) with 9223372036854775807%Z by reflexivity. rewrite minus_IZR.
+    assert (Ik : IZR k <= -9223372036854775809) by (apply IZR_le; lia).
+    assert (Im : IZR m <= 9223372036854775808) by (apply IZR_le; lia).
+    unfold u in *. revert K1 Ep Q Ik Im BS0. clear. split_Rabs; lra.
 Qed.
 
-(* ... hence the tolerance of the property oracle: 2 ns + 2^-50 of the magnitudes *)
-Theorem raw_f_close_Z s : (Z.abs (lo_ns s) < 2^62)%Z -> (Z.abs (hi_ns s) < 2^62)%Z ->
-  (Z.abs (raw_f s - raw_offset s) <= raw_tol s)%Z.
+(* from the real bound to the tolerance of the property oracle *)
+Lemma tol_of_R s x : 
+  Rabs (IZR (x - wide_offset s)) < 3 / 2 + / 1000000 + 3 * u * IZR (Z.abs (lo_ns s) + Z.abs (hi_ns s)) ->
+  (Z.abs (x - wide_offset s) <= raw_tol s)%Z.
 Proof.
-  intros Hl Hh. pose proof (raw_f_close_R s Hl Hh) as D. unfold raw_tol.
-  change (2^50)%Z with 1125899906842624%Z.
+  intros D. unfold raw_tol. change (2^50)%Z with 1125899906842624%Z.
   set (S := (Z.abs (lo_ns s) + Z.abs (hi_ns s))%Z) in *. set (T := (S / 1125899906842624)%Z).
   assert (HT : (0 <= T /\ S < 1125899906842624 * (T + 1))%Z).
   { subst T. split; [apply Z.div_pos; lia|]. pose proof (Z.mul_succ_div_gt S 1125899906842624). lia. }
@@ -372,8 +413,49 @@ Proof.
   { replace (1125899906842624 * (IZR T + 1)) with (IZR (1125899906842624 * (T + 1))) by (rewrite mult_IZR, plus_IZR; reflexivity).
     apply IZR_lt. apply HT. }
   assert (BT : 0 <= IZR T) by (apply IZR_le; apply HT).
-  assert (D' : Rabs (IZR (raw_f s - raw_offset s)) < IZR (3 + T)) by (rewrite plus_IZR; unfold u in D; lra).
+  assert (D' : Rabs (IZR (x - wide_offset s)) < IZR (3 + T)) by (rewrite plus_IZR; unfold u in D; lra).
   rewrite <- abs_IZR in D'. apply lt_IZR in D'. lia.
+Qed.
+
+Lemma raw_close_to_of_abs x tol obs : (Z.abs (obs - x) <= tol)%Z -> raw_close_to x tol obs = true.
+Proof.
+  intros C. unfold raw_close_to.
+  destruct (Z.leb_spec (Z.abs (obs - x)) tol) as [_|C']; [|lia]. cbn [andb].
+  destruct (Z.ltb_spec tol x) as [P|_].
+  - destruct (Z.ltb_spec 0 obs) as [_|P']; [|lia]. cbn [andb].
+    destruct (Z.ltb_spec x (- tol)) as [N|_]; [|reflexivity].
+    destruct (Z.ltb_spec obs 0); [reflexivity|lia].
+  - cbn [andb]. destruct (Z.ltb_spec x (- tol)) as [N|_]; [|reflexivity].
+    destruct (Z.ltb_spec obs 0); [reflexivity|lia].
+Qed.
+
+(* the whole wild range except the named corner *)
+Theorem raw_f_wide_Z s : (lo_ns s + hi_ns s < 2^64 - 2^14)%Z ->
+  (Z.abs (raw_f s - wide_offset s) <= raw_tol s)%Z.
+Proof.
+  intros H. destruct (raw_f_wide_R s) as [D|[_ C]]; [apply tol_of_R; exact D|lia].
+Qed.
+
+(* the corner: close, or MaxInt64 *)
+Theorem raw_f_corner s : (2^64 - 2^14 <= lo_ns s + hi_ns s)%Z ->
+  (Z.abs (raw_f s - wide_offset s) <= raw_tol s)%Z \/ raw_f s = max_i64.
+Proof.
+  intros H. destruct (raw_f_wide_R s) as [D|[E _]]; [left; apply tol_of_R; exact D|right; exact E].
+Qed.
+
+Lemma raw_f_close_R s : (Z.abs (lo_ns s) < 2^62)%Z -> (Z.abs (hi_ns s) < 2^62)%Z ->
+  Rabs (IZR (raw_f s - raw_offset s)) < 3 / 2 + / 1000000 + 3 * u * IZR (Z.abs (lo_ns s) + Z.abs (hi_ns s)).
+Proof.
+  intros Hl Hh. rewrite (raw_offset_exact s Hl Hh). destruct (raw_f_wide_R s) as [D|[_ C]]; [exact D|].
+  change (2^62)%Z with 4611686018427387904%Z in *. change (2^64 - 2^14)%Z with 18446744073709535232%Z in C. lia.
+Qed.
+
+(* ... hence the tolerance of the property oracle: 2 ns + 2^-50 of the magnitudes *)
+Theorem raw_f_close_Z s : (Z.abs (lo_ns s) < 2^62)%Z -> (Z.abs (hi_ns s) < 2^62)%Z ->
+  (Z.abs (raw_f s - raw_offset s) <= raw_tol s)%Z.
+Proof.
+  intros Hl Hh. pose proof (raw_f_close_R s Hl Hh) as D. rewrite (raw_offset_exact s Hl Hh) in *.
+  apply tol_of_R. exact D.
 Qed.
 
 (* ... and one nanosecond while the two one-way differences add up to less than 2^50 ns (13 days) *)
@@ -398,17 +480,14 @@ Proof. intros Hl Hh. pose proof (raw_f_close_Z s Hl Hh). lia. Qed.
 Theorem raw_f_close s : raw_close s (raw_f s) = true.
 Proof.
   unfold raw_close.
-  destruct (Z.ltb_spec (Z.abs (lo_ns s)) (2^62)) as [Hl|_]; [|reflexivity].
-  destruct (Z.ltb_spec (Z.abs (hi_ns s)) (2^62)) as [Hh|_]; [|reflexivity].
-  cbn [andb]. pose proof (raw_f_close_Z s Hl Hh) as C.
-  destruct (Z.leb_spec (Z.abs (raw_f s - raw_offset s)) (raw_tol s)) as [_|C']; [|lia].
-  cbn [andb].
-  destruct (Z.ltb_spec (raw_tol s) (raw_offset s)) as [P|_].
-  - destruct (Z.ltb_spec 0 (raw_f s)) as [_|P']; [|lia]. cbn [andb].
-    destruct (Z.ltb_spec (raw_offset s) (- raw_tol s)) as [N|_]; [|reflexivity].
-    destruct (Z.ltb_spec (raw_f s) 0); [reflexivity|lia].
-  - cbn [andb]. destruct (Z.ltb_spec (raw_offset s) (- raw_tol s)) as [N|_]; [|reflexivity].
-    destruct (Z.ltb_spec (raw_f s) 0); [reflexivity|lia].
+  destruct ((Z.abs (lo_ns s) <? 2^62) && (Z.abs (hi_ns s) <? 2^62)) eqn:E.
+  - apply andb_prop in E. destruct E as [Hl Hh]. apply Z.ltb_lt in Hl, Hh.
+    apply raw_close_to_of_abs. apply raw_f_close_Z; assumption.
+  - destruct (Z.ltb_spec (lo_ns s + hi_ns s) (2^64 - 2^14)) as [H|H].
+    + apply raw_close_to_of_abs. apply raw_f_wide_Z. exact H.
+    + destruct (raw_f_corner s H) as [C|C].
+      * rewrite (raw_close_to_of_abs _ _ _ C). reflexivity.
+      * rewrite C, Z.eqb_refl. apply orb_true_r.
 Qed.
 
 (* ---- the oracle on the model, all histories, no hypothesis ---- *)
